@@ -28,7 +28,8 @@ CHECKS["C06"] = {
     "text": "Each integrator's _step (and SymmetricCompositionIntegrator.__init__ for symbolic real free coefficients, n<=5 quick / 8 thorough) is symbolically executed "
             "against a contract stub of the system; postconditions: every Hamiltonian component is advanced by exactly time_step, the sub-step sequence is symmetric with "
             "equal adjoint times, coefficients are palindromic and sum to one, step() passes dir*step_size; the constrained inner loop is cut by an invariant for every n_inner_step.",
-    "note": "'consistent + symmetric => order 2 / energy error O(eps^2)' is a cited theorem (A9), not proved; flows are contract stubs (exactness is C07); "
+    "note": "'consistent + symmetric => order 2 / energy error O(eps^2)' is a cited theorem (A9), not proved; in the trace obligations flows are contract stubs, their exactness and the "
+            "gradient consistency of the system's own Hamiltonian are imported from the C07 / C05 obligation sets (run as part of this check); "
             "number of free coefficients bounded (values unbounded); reals for floats.",
 }
 CHECKS["C02"] = {
@@ -154,5 +155,25 @@ CHECKS["C19"] = {
             "differing defining option implies unequal objects or equal arrays, and copy / deepcopy / pickle equal the original.",
     "note": "value-semantics clauses are exercised on numeric instances (complete over classes and listed options, sampled over values: reported as bounded); hash_array and numpy writeable "
             "flags trusted; project_onto_cotangent_space mutating its `mom` argument is a system method and outside this property.",
+}
+CHECKS["C05"] = {
+    "engine": "symla",
+    "technique": "contract-based verification by exact symbolic execution of the real system classes with uninterpreted smooth model functions: postconditions value == documented formula and derivative method == sympy derivative of the value",
+    "design_ref": "DESIGN.md section 7 C05",
+    "text": "Euclidean, Gaussian-split, dense constrained (both density conventions), Gaussian constrained and scalar/diagonal/Cholesky/dense Riemannian systems, with every metric type and "
+            "both return conventions of the user derivative functions, are executed on symbolic states: h1, h2, h equal the documented formulas and dh1_dpos, dh2_dpos, dh2_dmom, dh_dpos, "
+            "dh_dmom equal the symbolic derivatives, also under repeated evaluation (cache not corrupted). Identities contain the model functions as undefined functions with Derivative "
+            "atoms, so a discharged obligation holds for every smooth model and every state at dimension 2.",
+    "note": "user derivative functions assumed exact (A4); SoftAbs system covered through its metric class (C10/C11) and the generic Riemannian methods; dimension 2, one constraint; "
+            "equalities sympy cannot simplify are checked with random concrete model functions and reported as bounded.",
+}
+CHECKS["C07"] = {
+    "engine": "symla",
+    "technique": "contract-based verification by exact symbolic execution of the real flow methods with symbolic time: ODE / group-law / inverse / energy postconditions and Jacobian-block postcondition for dh2_flow_dmom",
+    "design_ref": "DESIGN.md section 7 C07",
+    "text": "h1_flow, Euclidean and Gaussian h2_flow and dh2_flow_dmom of all tractable-flow systems and metric types (incl. the default implicit identity and a metric replaced after first use) "
+            "are traced for a symbolic real time: kick and drift formulas, Hamilton's ODE by symbolic time-differentiation, Phi(s)oPhi(t)=Phi(s+t), Phi(-t)oPhi(t)=id, energy conservation, and "
+            "dh2_flow_dmom equal to the Jacobian blocks of the traced flow for both signs of t.",
+    "note": "reals for floats; dimension 2; trig identities by sympy; dense metrics whose eigendecomposition comes from numpy eigh are represented by the eigendecomposed class.",
 }
 NOT_APPLICABLE = {}
